@@ -94,7 +94,7 @@ def audit_module(module, tier):
         name = m.group(1)
         # compiler-generated lemmas (equation lemmas, injectivity, matchers ...) are not obligations
         if not name.startswith("Irc.") or re.search(
-                r"\.(eq_\d+|eq_def|eq_unfold|congr_simp|sizeOf_spec|injEq|inj|match_\d+|proof_\d+|induct\w*|fun_cases\w*|_\w+)(\.|$)|\._", name):
+                r"\.(eq_\d+|eq_def|eq_unfold|congr_simp|sizeOf_spec|injEq|inj|ofNat_ctorIdx|ctorIdx\w*|toCtorIdx\w*|match_\d+|proof_\d+|induct\w*|fun_cases\w*|_\w+)(\.|$)|\._", name):
             continue
         axs = [a.strip() for a in m.group(2).split(",") if a.strip()]
         res["obligations"] += 1
